@@ -1081,3 +1081,46 @@ Proof.
   intros H. destruct (iter_is_loads t alt (iter_new buf) (iter_new_ok buf H)) as (l & A & B & _).
   exists l. split; [exact A|exact B].
 Qed.
+
+(* ---- closure of raw_ok: what `new` / `from_u32` produce and what `load` returns -------------------------- *)
+Lemma load_is_raw t alt buf i v :
+  bytes_ok buf -> len_ok buf -> 0 <= i -> load t alt buf i = Some v -> raw_ok t v.
+Proof.
+  intros Hb Hl Hi E.
+  assert (R : i < pixels_total t (buf_len buf)) by (apply (load_some_iff t alt); auto; rewrite E; discriminate).
+  destruct (rawty_cases t) as [St|[->|Mt]].
+  - rewrite load_sub_in in E by auto. inversion E. apply raw_new_ok.
+  - rewrite u8_total in R. rewrite load_u8_in in E by auto. inversion E. apply raw_new_ok.
+  - assert (W : whole_bytes t) by (right; auto).
+    destruct alt.
+    + rewrite (layout_be t buf i W Hb Hl (conj Hi R)) in E. inversion E. subst v. clear E.
+      unfold raw_ok, be_value.
+      destruct Mt as [->|[->| ->]]; nb;
+        [change (range 0 2) with [0; 1] | change (range 0 3) with [0; 1; 2] | change (range 0 4) with [0; 1; 2; 3]];
+        cbn [map zsum fold_right bits];
+        repeat match goal with |- context [256 ^ ?e] => let x := eval vm_compute in (256 ^ e) in change (256 ^ e) with x end;
+        repeat match goal with |- context [2 ^ ?e] => let x := eval vm_compute in (2 ^ e) in change (2 ^ e) with x end;
+        repeat match goal with |- context [byte_at buf ?k] =>
+          let H := fresh in pose proof (byte_at_ok buf k Hb) as H; generalize dependent (byte_at buf k); intros end;
+        lia.
+    + rewrite (layout_le t buf i W Hb Hl (conj Hi R)) in E. inversion E. subst v. clear E.
+      unfold raw_ok, le_value.
+      destruct Mt as [->|[->| ->]]; nb;
+        [change (range 0 2) with [0; 1] | change (range 0 3) with [0; 1; 2] | change (range 0 4) with [0; 1; 2; 3]];
+        cbn [map zsum fold_right bits];
+        repeat match goal with |- context [256 ^ ?e] => let x := eval vm_compute in (256 ^ e) in change (256 ^ e) with x end;
+        repeat match goal with |- context [2 ^ ?e] => let x := eval vm_compute in (2 ^ e) in change (2 ^ e) with x end;
+        repeat match goal with |- context [byte_at buf ?k] =>
+          let H := fresh in pose proof (byte_at_ok buf k Hb) as H; generalize dependent (byte_at buf k); intros end;
+        lia.
+Qed.
+
+(* store of any u32 handed over through from_u32 round-trips to the masked value *)
+Lemma load_store_new t alt x buf i :
+  bytes_ok buf -> len_ok buf -> 0 <= i < pixels_total t (buf_len buf) ->
+  load t alt (fst (store t alt (raw_new t x) buf i)) i = Some (raw_new t x).
+Proof.
+  intros Hb Hl Hi.
+  destruct (load_store t alt (raw_new t x) buf i Hb Hl (raw_new_ok t x) Hi) as (b' & S & L & _).
+  rewrite S. exact L.
+Qed.
